@@ -46,6 +46,7 @@ func TestC16(t *testing.T) {
 			workloads.EVM(r, r.Rand(fmt.Sprintf("evm/%s/%d", name, round)), nil, name, uint64(2000+round))
 		}
 		workloads.Extra(r, r.Rand(fmt.Sprintf("extra/%d", round)), nil)
+		workloads.RippleDest(r, r.Rand(fmt.Sprintf("ripple-dest/%d", round)), nil)
 	}
 	workloads.EthRealSeal(r, r.Rand("eth-realseal"), nil)
 	m.Report()
@@ -57,6 +58,7 @@ func TestC16(t *testing.T) {
 	r.Require("native_calls_monitored", 150)
 	r.Require("successful_calls", 60)
 	r.Require("failed_calls", 10)
+	r.Require("ripple_multisign_quorum_reached", 2)
 	r.Sample(map[string]interface{}{"skews_ns": skews(r), "entry_points": m.Entry})
 }
 
